@@ -765,6 +765,15 @@ fn set_descriptor(j: &J) {
     let id = j.get("id").int();
     let name = j.get("name").str().to_string();
     let mut m = DescriptorManager::new();
+    if id == 0 {
+        // a descriptor that hides its node: renders as the empty string
+        match j.get("kind").str() {
+            "REFERENCE" => m.set_reference_descriptor(name, Arc::new(|_| String::new())),
+            "FUNCTION" => m.set_function_descriptor(name, Arc::new(|_, _| String::new())),
+            _ => {}
+        }
+        return;
+    }
     match j.get("kind").str() {
         "UNARY" => m.set_unary_descriptor(
             name,
